@@ -20,6 +20,14 @@ LogIota(ins, sh, start) ==
   [c |-> "Ten", ins |-> ins, dt |-> 0, sh |-> sh,
    data |-> [k \in 1..n |-> MkL(start + k - 1, 1)]]
 
+\* leaf families for the semiring lenses (second argument: first value)
+LinT(ins, start) == Iota(ins, <<>>, 0, start, 1)
+LogT(ins, start) == LogIota(ins, <<>>, start)
+BoolT(ins, start) ==
+  LET n == SeqProd([k \in 1..Len(ins) |-> ins[k][2]]) IN
+  [c |-> "Ten", ins |-> ins, dt |-> 2, sh |-> <<>>,
+   data |-> [k \in 1..n |-> RInt(((k + start) \div 2) % 2)]]
+
 V(n, d) == [c |-> "Var", name |-> n, dom |-> d]
 N(x, dt) == [c |-> "Num", v |-> RInt(x), dt |-> dt]
 NQ(a, b) == [c |-> "Num", v |-> Q(a, b), dt |-> 0]
